@@ -36,13 +36,19 @@ func mixedCase(s string) string {
 func c15CheckName(r refOxx) {
 	vr.Tag("name", r.name)
 	for _, masked := range []bool{false, true} {
-		for sp := 0; sp < 3; sp++ {
+		for sp := 0; sp < 5; sp++ {
 			name := r.name
 			switch sp {
 			case 1:
 				name = strings.ToLower(name)
 			case 2:
 				name = mixedCase(name)
+			case 3:
+				// upper-case prefix, the rest in lower case (NXM_NX_reg0)
+				name = name[:4] + strings.ToLower(name[4:])
+			case 4:
+				// the other way round (nxm_NX_REG0)
+				name = strings.ToLower(name[:4]) + name[4:]
 			}
 			f, err := FindFieldHeaderByName(name, masked)
 			vr.Assert(err == nil, "registered")
@@ -113,7 +119,9 @@ func VerifC15_HeaderPackUnpack() {
 
 func VerifC15_HeaderUnpackPack() {
 	data := vr.Bytes("word", 4)
-	var g MatchField
+	// the target may have been used before (a decode loop's scratch value, a lookup result): what
+	// it held must not show in what is unpacked into it
+	g := MatchField{Class: vr.U16("old-class"), Field: vr.U8("old-field"), HasMask: vr.Bool("old-hasmask"), Length: vr.U8("old-length")}
 	err := g.UnmarshalHeader(data)
 	vr.Assert(err == nil, "unpack-ok")
 	w := g.MarshalHeader()
